@@ -257,7 +257,7 @@ def rules(ctx: Ctx) -> None:
             t = prog.infer(n, f)
             if not any(a.kind == "inst" and a.name in per_query for a in t.alts()):
                 continue
-            ft = prog.infer(n.func, f) if isinstance(n.func, (ast.Name, ast.Attribute)) else None
+            ft = prog.infer(n.func, f) if isinstance(n.func, (ast.Name, ast.Attribute, ast.IfExp)) else None
             if ft is None or not any(a.kind == "cls" for a in ft.alts()):
                 continue
             n_ctor += 1
